@@ -362,6 +362,27 @@ def _plant(world, root, op):
                     _safe_rmtree(q_)
                     world.count("fault.recorded_version_directory_removed_by_hand")
             continue
+        if item["kind"] == "relocate_recorded":
+            # big results moved to another volume by hand: the directory of a recorded version (or the whole
+            # package directory it lives in) now is a symbolic link to where the data went
+            rows_ = sim.read_rows(root)
+            if isinstance(rows_, list) and rows_:
+                from . import model as _M4
+
+                rr = rows_[item.get("idx", 0) % len(rows_)]
+                q_ = out / _M4.out_dir_rel(rr[0], rr[1])
+                if item.get("what") == "package" and q_.parent != out:
+                    q_ = q_.parent
+                    while q_.parent != out:
+                        q_ = q_.parent
+                if q_.is_dir() and not q_.is_symlink() and not any(pp.is_symlink() for pp in q_.parents if str(pp).startswith(str(out))):
+                    dest = root.parent / "relocated" / ("%d-%s" % (item.get("idx", 0), q_.name))
+                    dest.parent.mkdir(parents=True, exist_ok=True)
+                    if not dest.exists():
+                        shutil.move(str(q_), str(dest))
+                        sim.REAL.symlink(str(dest), str(q_))
+                        world.count("fault.recorded_output_relocated_behind_a_symlink")
+            continue
         p = out / item["path"] if not item.get("outside") else root.parent / item["path"]
         kind = item["kind"]
         if item.get("inside"):
